@@ -19,6 +19,7 @@ import (
 	"sort"
 	"strings"
 	"sync"
+	"sync/atomic"
 	"testing"
 	"testing/synctest"
 	"time"
@@ -185,6 +186,7 @@ type c39MChild struct {
 	state      connectivity.State
 	picker     *c39Picker    // nil: the built-in "no subconn available" picker
 	timer      time.Duration // absolute deadline, <0 none
+	timerID    int           // identity of the current init timer (valid while timer >= 0)
 	reportedTF bool
 }
 
@@ -206,10 +208,66 @@ type c39Model struct {
 	insts                     map[string]*c39MInst
 	inUse                     string
 	closed                    bool
+	// manual: init timers are owned by the explorer (timer-race scenario): they
+	// never expire by the passage of time; fire(pN) delivers the expiry of pN's
+	// current timer, runTimerCallback(pN) lets the balancer process the oldest
+	// delivered expiry of pN. An expiry only counts if, when it is processed,
+	// its timer is still the child's CURRENT init timer (not cancelled by
+	// READY/IDLE/TRANSIENT_FAILURE, a stop or a restart in between).
+	manual   bool
+	timerSeq int
+	inflight map[string][]int // per child name: ids of timers whose expiry was delivered but not yet processed
+}
+
+// c39Forever is the deadline of an explorer-owned timer.
+const c39Forever = time.Duration(1) << 60
+
+func (m *c39Model) newTimer(c *c39MChild) {
+	m.timerSeq++
+	c.timerID = m.timerSeq
+	c.timer = m.now + m.initTimeout
+	if m.manual {
+		c.timer = c39Forever
+	}
+}
+
+// currentInflight: the expiry of c's current timer has been delivered already.
+func (m *c39Model) currentInflight(name string) bool {
+	c := m.children[name]
+	if c == nil || c.timer < 0 {
+		return false
+	}
+	for _, id := range m.inflight[name] {
+		if id == c.timerID {
+			return true
+		}
+	}
+	return false
+}
+
+func (m *c39Model) canFire(name string) bool {
+	c := m.children[name]
+	return c != nil && c.started && c.timer >= 0 && !m.currentInflight(name)
+}
+
+func (m *c39Model) fire(name string) {
+	m.inflight[name] = append(m.inflight[name], m.children[name].timerID)
+}
+
+func (m *c39Model) runCallback(name string) {
+	id := m.inflight[name][0]
+	m.inflight[name] = m.inflight[name][1:]
+	if len(m.inflight[name]) == 0 {
+		delete(m.inflight, name)
+	}
+	if c := m.children[name]; c != nil && c.started && c.timer >= 0 && c.timerID == id {
+		c.timer = -1 // the child's CURRENT init timeout has elapsed
+		m.choose()
+	}
 }
 
 func c39NewModel(initT, cacheT time.Duration) *c39Model {
-	return &c39Model{initTimeout: initT, cacheTimeout: cacheT, children: map[string]*c39MChild{}, insts: map[string]*c39MInst{}}
+	return &c39Model{initTimeout: initT, cacheTimeout: cacheT, children: map[string]*c39MChild{}, insts: map[string]*c39MInst{}, inflight: map[string][]int{}}
 }
 
 func c39Sorted[V any](m map[string]V) []string {
@@ -237,7 +295,7 @@ func (m *c39Model) applyReport(name string, s connectivity.State, p *c39Picker) 
 		c.timer = -1
 	case connectivity.Connecting:
 		if !c.reportedTF && old != connectivity.Connecting && c.timer < 0 {
-			c.timer = m.now + m.initTimeout
+			m.newTimer(c)
 		}
 	}
 }
@@ -245,7 +303,7 @@ func (m *c39Model) applyReport(name string, s connectivity.State, p *c39Picker) 
 func (m *c39Model) start(name string) {
 	c := m.children[name]
 	c.started, c.state, c.picker, c.reportedTF = true, connectivity.Connecting, nil, false
-	c.timer = m.now + m.initTimeout
+	m.newTimer(c)
 	in := m.insts[name]
 	if in == nil {
 		m.insts[name] = &c39MInst{cache: -1}
@@ -367,11 +425,128 @@ func (m *c39Model) failedOrTimedOut(name string) bool {
 	return c != nil && c.started && c.state != connectivity.Ready && c.state != connectivity.Idle && c.timer < 0
 }
 
+// ------------------------------------------------- explorer-owned init timers ----
+//
+// In the timer-race scenario the harness owns the init timers through the
+// package's timeAfterFunc test hook: a timer never fires on its own; fire(pN)
+// delivers its expiry (from then on Stop() on it reports false, as for a real
+// fired time.Timer, and the captured callback is "in flight"), and
+// runTimerCallback(pN) runs the callback body as a separate, later event. So
+// child reports, config updates etc. can be interleaved between the expiry of
+// a timer and the execution of its callback (which, in production, first has
+// to win the balancer mutex).
+
+type c39TimerEntry struct {
+	child string
+	tw    *timerWrapper
+	f     func()
+	dummy *time.Timer
+	fired bool
+	ran   bool
+}
+
+type c39TimerEnv struct {
+	b       *priorityBalancer
+	mu      sync.Mutex
+	entries []*c39TimerEntry
+}
+
+// c39CurEnv is non-nil only while a history of the (sequential, Parallel=1)
+// timer-race scenario runs; otherwise the hook is the identity on time.AfterFunc.
+var c39CurEnv atomic.Pointer[c39TimerEnv]
+
+var c39HookOnce sync.Once
+
+func c39InstallHook() {
+	c39HookOnce.Do(func() {
+		timeAfterFunc = func(d time.Duration, f func()) *time.Timer {
+			env := c39CurEnv.Load()
+			if env == nil {
+				return time.AfterFunc(d, f)
+			}
+			// Called from childBalancer.startInitTimer with b.mu held by this
+			// goroutine, right after cb.initTimer was set to a wrapper whose
+			// timer field is still nil: that identifies the owner.
+			e := &c39TimerEntry{f: f, dummy: time.AfterFunc(1000*time.Hour, func() {})}
+			for name, c := range env.b.children {
+				if c.initTimer != nil && c.initTimer.timer == nil {
+					e.child, e.tw = name, c.initTimer
+				}
+			}
+			env.mu.Lock()
+			env.entries = append(env.entries, e)
+			env.mu.Unlock()
+			return e.dummy
+		}
+	})
+}
+
+// live returns the un-fired, un-stopped timer that is pN's current init timer.
+func (env *c39TimerEnv) live(name string) *c39TimerEntry {
+	env.b.mu.Lock()
+	defer env.b.mu.Unlock()
+	env.mu.Lock()
+	defer env.mu.Unlock()
+	c := env.b.children[name]
+	for _, e := range env.entries {
+		if e.child == name && !e.fired && !e.tw.stopped && c != nil && c.initTimer == e.tw {
+			return e
+		}
+	}
+	return nil
+}
+
+func (env *c39TimerEnv) oldestInflight(name string) *c39TimerEntry {
+	env.mu.Lock()
+	defer env.mu.Unlock()
+	for _, e := range env.entries {
+		if e.child == name && e.fired && !e.ran {
+			return e
+		}
+	}
+	return nil
+}
+
+// inflightKey: per child, for every delivered-but-unprocessed expiry whether its
+// timer was stopped meanwhile (s) or is still the child's current timer (c) or
+// neither (o).
+func (env *c39TimerEnv) inflightKey() string {
+	env.b.mu.Lock()
+	defer env.b.mu.Unlock()
+	env.mu.Lock()
+	defer env.mu.Unlock()
+	per := map[string]string{}
+	for _, e := range env.entries {
+		if e.fired && !e.ran {
+			k := "o"
+			if c := env.b.children[e.child]; e.tw.stopped {
+				k = "s"
+			} else if c != nil && c.initTimer == e.tw {
+				k = "c"
+			}
+			per[e.child] += k
+		}
+	}
+	var sb strings.Builder
+	for _, n := range c39Sorted(per) {
+		sb.WriteString(n + "=" + per[n] + ";")
+	}
+	return sb.String()
+}
+
+func (env *c39TimerEnv) stopAll() {
+	env.mu.Lock()
+	defer env.mu.Unlock()
+	for _, e := range env.entries {
+		e.dummy.Stop()
+	}
+}
+
 // ------------------------------------------------------------- operations ----
 
 type c39Op struct {
 	name  string
-	kind  string // cfg | child | adv | exitidle | close
+	kind  string // cfg | child | adv | exitidle | close | fire | runcb
 	prios []string
 	child string
 	state connectivity.State
@@ -422,6 +597,26 @@ func c39Ops(lists [][]string, long bool) []c39Op {
 	ops = append(ops, c39Op{name: "ExitIdle", kind: "exitidle"})
 	if long {
 		ops = append(ops, c39Op{name: "advance(subBalancerCloseTimeout)", kind: "adv", d: DefaultSubBalancerCloseTimeout})
+	}
+	ops = append(ops, c39Op{name: "Close", kind: "close"})
+	return ops
+}
+
+// c39RaceOps is the alphabet of the timer-race scenario.
+func c39RaceOps() []c39Op {
+	var ops []c39Op
+	for _, l := range [][]string{{"p0", "p1", "p2"}, {"p0", "p1"}, {"p1", "p0"}, {"p0"}, {"p2", "p0", "p1"}, {}} {
+		ops = append(ops, c39Op{name: "cfg[" + strings.Join(l, ",") + "]", kind: "cfg", prios: l})
+	}
+	for _, ch := range []string{"p0", "p1", "p2"} {
+		ops = append(ops, c39Op{name: "fire(" + ch + ")", kind: "fire", child: ch})
+		ops = append(ops, c39Op{name: "runTimerCallback(" + ch + ")", kind: "runcb", child: ch})
+	}
+	states := []connectivity.State{connectivity.Ready, connectivity.Connecting, connectivity.TransientFailure, connectivity.Idle}
+	for _, ch := range []string{"p0", "p1", "p2"} {
+		for _, s := range states {
+			ops = append(ops, c39Op{name: ch + ":" + s.String(), kind: "child", child: ch, state: s})
+		}
 	}
 	ops = append(ops, c39Op{name: "Close", kind: "close"})
 	return ops
@@ -676,7 +871,7 @@ func c39Key(w *c39World, b *priorityBalancer, m *c39Model) (key, obs string) {
 
 // ------------------------------------------------------------------ runner ----
 
-func c39Runner(t *testing.T, ops []c39Op, pre []int) func(hist []int) seqx.Outcome {
+func c39Runner(t *testing.T, ops []c39Op, pre []int, manual bool) func(hist []int) seqx.Outcome {
 	return func(h0 []int) (out seqx.Outcome) {
 		hist := append(append([]int(nil), pre...), h0...)
 		synctest.Test(t, func(t *testing.T) {
@@ -684,11 +879,21 @@ func c39Runner(t *testing.T, ops []c39Op, pre []int) func(hist []int) seqx.Outco
 			bal := bb{}.Build(&c39CC{w: w}, balancer.BuildOptions{})
 			b := bal.(*priorityBalancer)
 			m := c39NewModel(DefaultPriorityInitTimeout, DefaultSubBalancerCloseTimeout)
+			var env *c39TimerEnv
+			if manual {
+				m.manual = true
+				env = &c39TimerEnv{b: b}
+				c39CurEnv.Store(env)
+			}
 			defer func() {
 				if !m.closed {
 					bal.Close()
 				}
 				synctest.Wait()
+				if env != nil {
+					env.stopAll()
+					c39CurEnv.Store(nil)
+				}
 			}()
 			synctest.Wait()
 			for _, h := range hist {
@@ -723,6 +928,33 @@ func c39Runner(t *testing.T, ops []c39Op, pre []int) func(hist []int) seqx.Outco
 					}
 					m.report(op.child, op.state, p)
 					inst.cc.UpdateState(balancer.State{ConnectivityState: op.state, Picker: p})
+				case "fire", "runcb":
+					var e *c39TimerEntry
+					var mOK bool
+					if op.kind == "fire" {
+						e, mOK = env.live(op.child), m.canFire(op.child)
+					} else {
+						e, mOK = env.oldestInflight(op.child), len(m.inflight[op.child]) > 0
+					}
+					if e == nil || !mOK {
+						out.Skip, out.Key = true, "n/a"
+						if (e != nil) != mOK {
+							out.Skip, out.Terminal = false, true
+							out.Fails = append(out.Fails, seqx.Fail{Prop: "C39", Key: "init-timer-differs", Desc: fmt.Sprintf("%s: real balancer has such a timer=%v, reference %v", op.name, e != nil, mOK)})
+						}
+						return
+					}
+					if op.kind == "fire" {
+						// expiry delivered: a fired timer can no longer be stopped
+						// (Stop reports false), its callback is in flight
+						e.fired = true
+						e.dummy.Stop()
+						m.fire(op.child)
+					} else {
+						e.ran = true
+						m.runCallback(op.child)
+						e.f()
+					}
 				case "adv":
 					m.advance(op.d)
 					time.Sleep(op.d)
@@ -745,6 +977,25 @@ func c39Runner(t *testing.T, ops []c39Op, pre []int) func(hist []int) seqx.Outco
 				}
 			}
 			out.Key, out.Obs = c39Key(w, b, m)
+			if env != nil && !m.closed {
+				// in-flight expiries: model (c = of the current timer, s = stale) and real
+				var sb strings.Builder
+				for _, n := range c39Sorted(m.inflight) {
+					sb.WriteString(n + "=")
+					for _, id := range m.inflight[n] {
+						if c := m.children[n]; c != nil && c.started && c.timer >= 0 && c.timerID == id {
+							sb.WriteString("c")
+						} else {
+							sb.WriteString("s")
+						}
+					}
+					sb.WriteString(";")
+				}
+				out.Key += "|F:" + sb.String() + "|" + env.inflightKey()
+				if len(m.inflight) > 0 {
+					out.Obs += " +expiry-in-flight"
+				}
+			}
 			if m.closed {
 				out.Terminal = true
 			}
@@ -765,7 +1016,7 @@ func TestVerif_C39_Priority(t *testing.T) {
 	const P = "C39"
 	r := vk.Start(t, "c39_priority", "model_checking", P)
 	defer r.Finish()
-	r.Rule(P, "breadth-first over ALL event histories up to the depth bound, from two start states (scenario prio: freshly built balancer, depth 6/8; scenario prio-all-running: after cfg[p0,p1,p2]; p0:TRANSIENT_FAILURE; advance(initTimeout), i.e. p0 failed, p1 timed out, p2 in use within its timeout, depth 5/7); each history is applied to a fresh real priority balancer (built through its builder, real balancergroup/gracefulswitch, real init and sub-balancer-cache timers on synctest virtual time) next to a reference A56 model; run to quiescence and compared after every event. Events: config update with any ordered list over {p0,p1,p2} (add/remove/reorder/empty), child policy pN reports CONNECTING/READY/IDLE/TRANSIENT_FAILURE with a fresh tagged picker (also while deactivated), advance virtual time by the init timeout, ExitIdle, advance by the sub-balancer retention time, Close. A state = canonical private selection state of the real balancer (childInUse, priorities, per child started/state/initTimer/reportedTF, open child policies and their last report, last parent state) + reference model state; distinct states are the non-trivial cases")
+	r.Rule(P, "breadth-first over ALL event histories up to the depth bound, from two start states plus a timer-race scenario (scenario prio-timer-race, depth 6/10: the explorer owns the init timers through the package timeAfterFunc hook; fire(pN) delivers the expiry of the current init timer of pN, runTimerCallback(pN) runs the captured callback as a separate later event, so reports and config updates are interleaved between the expiry of a timer and the execution of its callback; config menu of 6 lists) (scenario prio: freshly built balancer, depth 6/8; scenario prio-all-running: after cfg[p0,p1,p2]; p0:TRANSIENT_FAILURE; advance(initTimeout), i.e. p0 failed, p1 timed out, p2 in use within its timeout, depth 5/7); each history is applied to a fresh real priority balancer (built through its builder, real balancergroup/gracefulswitch, real init and sub-balancer-cache timers on synctest virtual time) next to a reference A56 model; run to quiescence and compared after every event. Events: config update with any ordered list over {p0,p1,p2} (add/remove/reorder/empty), child policy pN reports CONNECTING/READY/IDLE/TRANSIENT_FAILURE with a fresh tagged picker (also while deactivated), advance virtual time by the init timeout, ExitIdle, advance by the sub-balancer retention time, Close. A state = canonical private selection state of the real balancer (childInUse, priorities, per child started/state/initTimer/reportedTF, open child policies and their last report, last parent state) + reference model state; distinct states are the non-trivial cases")
 	r.Assume(P, "child policies are stubs that only report what the explorer tells them; GRPC_EXPERIMENTAL_ENABLE_PRIORITY_LB_CHILD_POLICY_CACHE unset (default); all events happen at quiescence (no event is injected while the balancer's serializer is busy)")
 	r.Assume(P, "state key abstracts the remaining retention time of a deactivated child policy to retained/not: inside the depth bound 10 s advances can never add up to the 15 min retention and one 15 min advance always exceeds it; init timers always have exactly the full timeout left at quiescence")
 	lists := c39AllLists([]string{"p0", "p1", "p2"})
@@ -798,8 +1049,22 @@ func TestVerif_C39_Priority(t *testing.T) {
 		seqx.BFS(r, []string{P}, seqx.Config{
 			Name: sc.name, Ops: c39Names(ops), MaxDepth: sc.depth, Parallel: 4,
 			Congruence: r.Thorough(), CongruenceMax: 2000, MinStates: 100,
-			Run: c39Runner(t, ops, pre),
+			Run: c39Runner(t, ops, pre, false),
 		})
 	}
 	r.Sample(P, map[string]any{"scenario": "prio-all-running", "preamble": scenarios[1].pre})
+
+	// Timer-race scenario: the explorer owns the init timers through the
+	// timeAfterFunc hook, so "expiry delivered, callback not yet run" is a state.
+	// Sequential (the hook is package-level state).
+	if r.Mine(len(scenarios)) || r.ReplayFile() != "" {
+		c39InstallHook()
+		rops := c39RaceOps()
+		seqx.BFS(r, []string{P}, seqx.Config{
+			Name: "prio-timer-race", Ops: c39Names(rops), MaxDepth: r.Pick(6, 10), Parallel: 1,
+			Congruence: r.Thorough(), CongruenceMax: 1000, MinStates: 100,
+			Run: c39Runner(t, rops, nil, true),
+		})
+		r.Sample(P, map[string]any{"scenario": "prio-timer-race", "history": []string{"cfg[p0,p1]", "fire(p0)", "p0:READY", "p0:CONNECTING", "runTimerCallback(p0)"}, "expected": "stale callback is a no-op: p0 stays in use within its restarted init timeout, p1 not started"})
+	}
 }
